@@ -294,7 +294,7 @@ def classify(inp):
     return inp.get("op", "")
 
 
-BUDGET = dict(quick=200, thorough=1400)
+BUDGET = dict(quick=200, thorough=1000)
 
 
 def harnesses(tier):
